@@ -109,6 +109,18 @@ def make_class(rng, idx):
             ns[attr] = IntSub(2)
         elif o == 'str':
             ns[attr] = '2'
+    if rng.random() < 0.15:
+        # instance-level attribute lookup answers differently from the class (the engine reads the TYPE's attributes)
+        traits['instance_lookup'] = 'getattribute-override'
+
+        def ga(self, name):
+            if name == '_fields':
+                return ('shadow', 'ed')
+            if name in ('_make', '_asdict') and False:
+                return None
+            return object.__getattribute__(self, name)
+
+        ns['__getattribute__'] = ga
     try:
         cls = type(f'G{idx}', bases, ns)
     except TypeError:
@@ -155,6 +167,19 @@ def classify_case(sink, rng, idx, tag):
     inst = instance_of(cls)
     if inst is not None:
         subjects.append(('instance', inst))
+        inst2 = instance_of(cls)
+        if inst2 is not None and hasattr(inst2, '__dict__'):
+            # an instance that carries its own _fields / _make / _asdict in its __dict__, shadowing the class attributes
+            try:
+                inst2.__dict__['_fields'] = rng.choice([('y', 'x'), ['x', 'y'], None, ('x',), 7])
+                if rng.random() < 0.5:
+                    inst2.__dict__['_make'] = 42
+                if rng.random() < 0.5:
+                    inst2.__dict__['_asdict'] = None
+                subjects.append(('instance-own-attrs', inst2))
+                sink.count('instances-with-own-attrs')
+            except Exception:  # noqa: BLE001
+                pass
     for what, x in subjects:
         cx = answers(x, 'cxx')
         py = answers(x, 'python')
@@ -495,6 +520,7 @@ def run_shard(sink, tier, seed, shard):
 
 
 def finalize(sink, tier, seed):
+    sink.require('instances-with-own-attrs', 100)
     sink.require('classified', 1000)
     sink.require('fresh-interpreter-queries')
     sink.require('live-classes-filling-caches', 4097)
